@@ -124,6 +124,29 @@ func MonitorC10(w *plugin.World, step int) []hx.Violation {
 					step, w.LastOp.Line, plugin.IPStr(ip), old.Key, how, node)})
 		}
 	}
+	// ---- "stored node name per IP = where the provider has the IP assigned" (the mechanism the property names): a
+	// record that forgot its node while the provider still has the address assigned is the root of a later
+	// free-while-assigned / assign-elsewhere; report it where it happens
+	if len(out) == 0 {
+		var cur []uint32
+		for ip := range now {
+			cur = append(cur, ip)
+		}
+		sort.Slice(cur, func(i, j int) bool { return cur[i] < cur[j] })
+		for _, ip := range cur {
+			node, assigned := st.prov[ip]
+			if !assigned || now[ip].Node == node {
+				continue
+			}
+			sig := "stored-node-differs-from-provider:by=" + kind
+			if k := util.ParseKey(now[ip].Key); k != nil && k.PodName != "" && (len(ownedBefore(st.dump, now[ip].Key)) > 1 || len(ownedBefore(now, now[ip].Key)) > 1) {
+				sig = SigMultiIP
+			}
+			out = append(out, hx.Violation{Signature: sig,
+				What: fmt.Sprintf("step %d (%s): the provider has ip %s assigned to %s but its record (key %s) names node %q",
+					step, w.LastOp.Line, plugin.IPStr(ip), node, now[ip].Key, now[ip].Node)})
+		}
+	}
 	st.dump = now
 	return out
 }
